@@ -5,7 +5,7 @@
    pattern ends in the same state (the only default quote that is a prefix is the star itself, the back-reference forces the
    quoted text to stop at the first following star), and completeness shows that the match is found. *)
 From Rimu Require Import Base Unicode Regex RegexSem RegexAnalysis RegexParse Str Types Tables Guards State Inline
-  MatchLemmas Placeholder MatchExact FilterLemmas Plain MacroSubst.
+  MatchLemmas Placeholder MatchExact ScanLemmas Plain.
 From Coq Require Import Lia.
 Local Open Scope monad_scope.
 
